@@ -70,6 +70,10 @@ def generate(gen, tier):
                  op('transpose_map', A(variant), cfg, fid, A('-'), outer),
                  op('transpose_map', A(rng.choice(['plain', 'path', 'acc'])), cfg, rng.choice([7, 8, 9]), A('-'), outer,
                     relabel_leaves(gen, outer)),
+                 # under a predicate that makes the mapped function's results (or parts of them) leaves: the inner structure
+                 # taken from the first result has to be read with the same predicate
+                 op('transpose_map', A(rng.choice(['plain', 'path', 'acc'])), [cfg[0], cfg[1], cfg[2], rng.choice([1, 2, 6]), cfg[4]],
+                    rng.choice([2, 5, 6]), A('-'), outer),
                  op('transpose_map', A('plain'), cfg, 6, [A('structure'), cfg, [A('D'), [[A('s'), 'a'], [A('l'), gen.leaf(0), A('N')]], [[A('s'), 'b'], gen.leaf(0)]]], outer)]
         cases.append({'lines': lines, 'o': {'cfg': render(cfg), 'cfg_i': render(cfg_i), 'outer': render(outer),
                                             'inner': render(inner), 'tree': render(t), 'class': cls}})
@@ -185,4 +189,30 @@ def oracle(impl, o):
                                       'want': repr(s1)[:200], 'got': repr(s3)[:200]})
                     if len(cnt) != m:
                         fails.append({'key': 'transpose-map-calls', 'what': f'{name}: f not called once per outer leaf'})
+            # the same with an is_leaf predicate under which the results contain opaque container leaves ("points")
+            if want[0] == 'ok' and parse(o['cfg'])[2] == parse(o['cfg_i'])[2]:
+                def is_point(x):
+                    return type(x) is tuple and len(x) == 2 and type(x[0]) is int
+                kwl = {**kw, 'is_leaf': is_point}
+                kwtl = {**kwt, 'is_leaf': is_point}
+
+                def fpt(*xs):
+                    return inner.unflatten([(k, 7 * k) for k in range(n)])
+                mapped_l = optree.tree_map(fpt, outer_t, **kwl)
+                want_l = outcome(lambda: optree.tree_transpose(outer, inner, mapped_l, is_leaf=is_point))
+                if want_l[0] == 'ok':
+                    wl, ws = optree.tree_flatten(want_l[1], **kwtl)
+                    if len(wl) != m * n or not all(is_point(x) for x in wl):
+                        fails.append({'key': 'transpose-predicate-leaves', 'what': 'tree_transpose with is_leaf lost or split the opaque leaves'})
+                    for name in ('tree_transpose_map', 'tree_transpose_map_with_path', 'tree_transpose_map_with_accessor'):
+                        gl = outcome(lambda: getattr(optree, name)(fpt, outer_t, **kwl))
+                        if gl[0] != 'ok':
+                            fails.append({'key': 'transpose-map-predicate-raises',
+                                          'what': f'{name}(f, t, is_leaf=L) raised {gl[1]}: {gl[2]} although transposing tree_map(f, t, is_leaf=L) succeeds'})
+                            continue
+                        g_l, g_s = optree.tree_flatten(gl[1], **kwtl)
+                        if g_l != wl or not (g_s == ws):
+                            fails.append({'key': 'transpose-map-predicate',
+                                          'what': f'{name}(f, t, is_leaf=L) differs from transposing tree_map(f, t, is_leaf=L) (results of f are leaves under L)',
+                                          'want': repr(ws)[:200], 'got': repr(g_s)[:200]})
     return fails
